@@ -98,9 +98,25 @@ CLAIMS = [
                 'reals for floats. Bounded: dims <= 3/4, units <= 3, batch <= 2.',
         'design_ref': 'DESIGN.md section 4 C20',
     },
+    {
+        'property_id': 'C05',
+        'level': 'proof',
+        'technique': 'contract-based deductive verification: real PWLCalibration / CategoricalCalibration call paths under a '
+                     'Keras stub on symbolic kernels and inputs; segment-wise equality with the piecewise-linear spec (normal '
+                     'form, z3/cvc5); softmax axioms for learned keypoints',
+        'text': 'PWLCalibration.call, keypoints_inputs/outputs, compute_interpolation_weights and CategoricalCalibration.call '
+                'carry postconditions equating the output with the function the weights describe (interpolation through the '
+                'cumulative sums, constant outside, cyclic closing, per-unit broadcast, missing flag/value replacement, split '
+                'outputs; category i -> row i, default -> last bucket) for ALL kernels and ALL real inputs; monotone/bounded '
+                'consequences and ordered learned keypoints are lemmas.',
+        'note': 'Trusted: operator contracts (cross-checked each run), Keras stub, softmax axioms, z3/cvc5, reals for floats. '
+                'Bounded: 2-4/5 concrete keypoints (uniform and non-uniform), units <= 2, batch <= 2; evaluation of learned-interior '
+                'layers covered only through the keypoint-ordering lemma.',
+        'design_ref': 'DESIGN.md section 4 C05',
+    },
 ]
 
 _PENDING = 'check not built yet in this session (planned, see DESIGN.md section 4); not claimed until its check exists'
 NOT_APPLICABLE = [
-    {'property_id': 'C%02d' % i, 'reason': _PENDING} for i in range(2, 21) if i not in (2, 4, 6, 12, 13, 20)
+    {'property_id': 'C%02d' % i, 'reason': _PENDING} for i in range(2, 21) if i not in (2, 4, 5, 6, 12, 13, 20)
 ]
